@@ -348,24 +348,57 @@ def row_jump(fx, p, evs, R):
         R.need(ip[0]["val"] == ("some", lg[0]["val"]), "ip is not set to the label's address: %s" % fmt_term(ip[0]["val"]))
 
 
+WORLDS = (("Null", None, False), ("Integer", None, True), ("Boolean", True, True), ("Boolean", False, False), ("Reference", None, True))
+
+
+def _in_world(t, popped, kind, payload):
+    """three-valued value of a condition term when the popped value is `kind` (with that Boolean payload): True / False /
+    None (does not depend on the popped value's kind, or cannot be told)"""
+    if t == TRUE:
+        return True
+    if t == lit(False):
+        return False
+    if not isinstance(t, tuple) or t[0] != "app":
+        return None
+    op, a = t[1], t[2]
+    if op == "is_variant" and a[0] == popped:
+        return a[1][1] == kind
+    if op == "proj" and a[0] == popped and a[1] == lit("Boolean") and kind == "Boolean":
+        return payload
+    if op == "not":
+        v = _in_world(a[0], popped, kind, payload)
+        return None if v is None else (not v)
+    if op in ("or", "and"):
+        vs = [_in_world(x, popped, kind, payload) for x in a]
+        if op == "or":
+            return True if any(v is True for v in vs) else (False if all(v is False for v in vs) else None)
+        return False if any(v is False for v in vs) else (True if all(v is True for v in vs) else None)
+    if op in ("eq", "ne") and len(a) == 2:
+        x, y = (_in_world(a[0], popped, kind, payload), _in_world(a[1], popped, kind, payload))
+        if x is None or y is None:
+            return None
+        return (x == y) if op == "eq" else (x != y)
+    return None
+
+
 def truthiness(p, popped):
-    """S1 truthiness of the popped value on this path: True/False/None(unknown)"""
-    kind = None
-    for c, val in assumes(p["eff"]):
-        if c[0] == "app" and c[1] == "is_variant" and c[2][0] == popped and val:
-            kind = c[2][1][1]
-    if kind == "Null":
-        return False, "Null"
-    if kind in ("Integer", "Reference"):
-        return True, kind
-    if kind == "Boolean":
-        b = ("app", "proj", (popped, lit("Boolean"), lit("0")))
+    """S1 truthiness of the popped value on this path, decided world by world: the kinds of value (Null, Integer,
+    Boolean(true), Boolean(false), Reference) this path's conditions admit must all have the same S1 truthiness.
+    → (True/False/None(mixed or none), [case names])"""
+    admitted = []
+    for kind, payload, truthy in WORLDS:
+        ok = True
         for c, val in assumes(p["eff"]):
-            if c == b:
-                return val, "Boolean(%s)" % str(val).lower()
-            if c == ("app", "not", (b,)):
-                return (not val), "Boolean(%s)" % str(not val).lower()
-    return None, kind
+            v = _in_world(c, popped, kind, payload)
+            if v is not None and v != val:
+                ok = False
+                break
+        if ok:
+            admitted.append(("%s(%s)" % (kind, str(payload).lower()) if kind == "Boolean" else kind, truthy))
+    truths = {t for _, t in admitted}
+    if len(truths) != 1:
+        return None, [k for k, _ in admitted]
+    return truths.pop(), [k for k, _ in admitted]
 
 
 def row_branch(fx, p, evs, R):
@@ -373,9 +406,10 @@ def row_branch(fx, p, evs, R):
     pops = [e for e in evs if e["e"] == "pop"]
     if not R.need(len(pops) == 1 and sk[0] == "pop", "does not pop exactly the condition first (%s)" % sk):
         return
-    truth, kind = truthiness(p, pops[0]["val"])
-    if not R.need(truth is not None, "cannot determine the truthiness case of this path (%s)" % kind):
+    truth, kinds_ = truthiness(p, pops[0]["val"])
+    if not R.need(truth is not None, "this path serves conditions of different S1 truthiness, or none (%s)" % kinds_):
         return
+    kind = "/".join(kinds_)
     if truth:
         cs = const_string(evs, ("var", "index"))
         lg = [e for e in evs if e["e"] == "label_get"]
@@ -385,6 +419,7 @@ def row_branch(fx, p, evs, R):
     else:
         R.need(sk == ["pop", "ip_bump"], "falsy condition (%s) does not fall through to the next instruction (effects %s)" % (kind, sk))
     R.case = "%s→%s" % (kind, "jump" if truth else "next")
+    R.cases = ["%s→%s" % (k, "jump" if truth else "next") for k in kinds_]
 
 
 def row_return(fx, p, evs, R):
@@ -551,7 +586,7 @@ def op_rules(ck, fx, cg, rule="R5.op"):
             R = Row()
             fn(fx, p, evs, R)
             case = getattr(R, "case", "path%d" % i)
-            cases.append(case)
+            cases.extend(getattr(R, "cases", [case]))
             key = "%s|%s" % (name, case) if len(oks) > 1 else name
             at = next((e["at"] for e in evs if e.get("at")), "")
             ck.ob(rule, key, not R.problems, at, "conforms to the S1 row" if not R.problems else "; ".join(R.problems))
